@@ -18,6 +18,7 @@ import pathops  # pytype: disable=import-error
 from typing import Sequence, Tuple
 from picosvg.svg_meta import SVGCommand, SVGCommandGen, SVGCommandSeq
 from picosvg.svg_transform import Affine2D
+from picosvg import _verif
 
 
 # Absolutes coords assumed
@@ -180,6 +181,12 @@ def stroke(
         # skip tricky paths that trigger PathOpsError
         # https://github.com/googlefonts/picosvg/issues/192
         sk_path = backup
+    if _verif.ENABLED:
+        _verif.emit(
+            "stroke_simplified",
+            raw=tuple(svg_commands(backup)),
+            result=tuple(svg_commands(sk_path)),
+        )
     return svg_commands(sk_path)
 
 
